@@ -415,8 +415,9 @@ type rwState struct {
 }
 
 type wgState struct {
-	n  int64
-	vc vclock
+	n       int64
+	vc      vclock
+	waiters []*bool // goroutines blocked in Wait, released by the Done that zeroes the counter
 }
 
 type atomicState struct {
@@ -566,13 +567,27 @@ func (e *Engine) wgAdd(g *Gor, p *Value, delta Value) {
 	if w.n < 0 {
 		e.rtPanic("sync: negative WaitGroup counter")
 	}
+	if w.n == 0 {
+		// the Done that brings the counter to zero releases everyone who is waiting NOW
+		for _, r := range w.waiters {
+			*r = true
+		}
+		w.waiters = nil
+	}
 }
 
 func (e *Engine) wgWait(g *Gor, p *Value) {
 	w := e.wgOf(p)
 	e.yield(g, "WaitGroup.Wait")
 	if w.n > 0 {
-		e.blockOn(g, func() bool { return w.n == 0 }, "WaitGroup.Wait")
+		released := new(bool)
+		w.waiters = append(w.waiters, released)
+		e.blockOn(g, func() bool { return *released }, "WaitGroup.Wait")
+		if w.n != 0 {
+			// what the runtime does when the counter has left zero again before a released
+			// waiter got to run
+			e.rtPanic("sync: WaitGroup is reused before previous Wait has returned")
+		}
 	}
 	e.acquire(g, &w.vc)
 }
